@@ -782,7 +782,9 @@ static void et_run_case(const char *profile, uint64_t seed, uint64_t idx)
     }
     if (et_cfg.busy_traffic) {
       /* the unanswered request has one try of 250 ms; the answers streaming in for the other requests must not
-       * keep its timeout from being noticed (slack 400 ms, confirmed by a second run) */
+       * keep its timeout from being noticed.  Slack 2 s (a timeout that is not noticed at all while traffic lasts shows
+       * as 6 s; 400 ms was exceeded by 27 ms in the thread-sanitizer build with sixteen cases side by side), confirmed
+       * by a second run */
       int p = atomic_load(&et_timers_probe);
       vh_count_n("timers.busy_traffic.requests_reissued_from_callbacks", atomic_exchange(&et_perpetual_issued, 0));
       if (p >= 0) {
@@ -790,7 +792,7 @@ static void et_run_case(const char *profile, uint64_t seed, uint64_t idx)
                         ? (double)(atomic_load(&et_reqs[p].t_cb) - atomic_load(&et_reqs[p].t_issue)) / 1e6
                         : 6000.0;
         vh_count("timers.busy_traffic.evaluated");
-        if (took > et_cfg.timeout_ms + 400 && et_machine_kept_up("busy_traffic")) {
+        if (took > et_cfg.timeout_ms + 2000 && et_machine_kept_up("busy_traffic")) {
           if (et_backoff_confirming) {
             vh_violation("timer:et:timeout-late:busy-traffic",
                          "a request to a silent server (1 try, %d ms) was failed %.0f ms after it was issued%s while the event thread was "
@@ -806,13 +808,14 @@ static void et_run_case(const char *profile, uint64_t seed, uint64_t idx)
     }
     if (et_cfg.long_timeout) {
       /* nothing ever arrives: the request must end by its own timeouts, tries x timeout after it was issued
-       * (maxtimeout = timeout, so there is no back-off); slack 400 ms, confirmed by a second run */
+       * (maxtimeout = timeout, so there is no back-off); slack 800 ms (an oversleeping back end is a whole second
+       * late per try), confirmed by a second run */
       int p = atomic_load(&et_timers_probe);
       if (p >= 0 && atomic_load(&et_reqs[p].cb_count) > 0) {
         double took   = (double)(atomic_load(&et_reqs[p].t_cb) - atomic_load(&et_reqs[p].t_issue)) / 1e6;
         double budget = (double)et_cfg.tries * et_cfg.timeout_ms;
         vh_count("timers.long_timeout.evaluated");
-        if (took > budget + 400 && et_machine_kept_up("long_timeout")) {
+        if (took > budget + 800 && et_machine_kept_up("long_timeout")) {
           if (et_backoff_confirming) {
             vh_violation("timer:et:timeout-late:long-timeout",
                          "a request to a silent server (tries %d x timeout %d ms, no back-off) was failed %.0f ms after it "
